@@ -1,17 +1,17 @@
-SPECIFICATION SpecFast
+SPECIFICATION Spec
 CONSTANTS
   Nodes = {1, 2, 3, 4}
-  InitPower <- P3111
+  InitPower <- P111x
   Accounts = {"a", "b"}
-  Bodies <- BodiesM
-  SigLists <- ListsM
+  Bodies <- BodiesQ
+  SigLists <- ListsQ
   Replicas = {1, 2}
-  MaxTx = 2
+  MaxTx = 3
   MaxBlocks = 2
   DedupSigners = TRUE
   DirectOpen = FALSE
   QueryOpen = FALSE
-  QueryTouches = FALSE
+  QueryTouches = TRUE
   TallyOnly = FALSE
 VIEW view
 CONSTRAINT Viable
